@@ -1,5 +1,5 @@
 //! C19 — chaos injection is reproducible and bounded; injected errors skip the inner call
-//! (engine C: full finite grid, four equally seeded instances (built with the builder calls in three different orders; one of them serving every request through a fresh clone) run side by side).
+//! (engine C: full finite grid, six equally seeded instances (built with the builder calls in five different orders; one of them serving every request through a fresh clone) run side by side).
 
 use serde_json::json;
 use std::time::Duration;
@@ -54,6 +54,22 @@ fn run_instance_via(seed: Option<u64>, err_rate: f64, lat_rate: f64, min: u64, m
                 b = b.seed(s);
             }
             b.error_fn(inject).build()
+        }
+        3 => {
+            // the error function first, its rate afterwards (error_fn is also available on the
+            // initial builder; the builder it returns has an error_rate setter of its own)
+            let mut b = ChaosLayer::builder().name("c19").error_fn(inject).error_rate(err_rate).latency_rate(lat_rate).min_latency(Duration::from_millis(min)).max_latency(Duration::from_millis(max));
+            if let Some(s) = seed {
+                b = b.seed(s);
+            }
+            b.build()
+        }
+        4 => {
+            let mut b = ChaosLayer::builder().name("c19").latency_rate(lat_rate).min_latency(Duration::from_millis(min)).max_latency(Duration::from_millis(max));
+            if let Some(s) = seed {
+                b = b.seed(s);
+            }
+            b.error_fn(inject).error_rate(err_rate).build()
         }
         _ => {
             let mut b = ChaosLayer::builder().name("c19").error_rate(err_rate).error_fn(inject).latency_rate(lat_rate).min_latency(Duration::from_millis(min)).max_latency(Duration::from_millis(max));
@@ -119,7 +135,7 @@ fn main() {
     }
     let tier = cli.tier;
     let mut rep = Report::new("C19", tier, "exploration");
-    rep.rule = "full grid: seeds {0..63 (quick) / 0..255 (thorough), 2^32-1, 2^64-1} x error rate {0, 0.3, 1} x latency rate {0, 0.5, 1} x latency range ms {(0,0),(5,5),(5,20),(20,5),(1200,1800),(2000,2000),(500,2500),(61000,62000),(3600000,1)} x 24 sequential requests; four equally seeded instances (built with the builder calls in three different orders; one of them serving every request through a fresh clone) run side by side under virtual time and must make identical decisions and inject identical latencies. distinct = distinct (configuration, decision vector) pairs".into();
+    rep.rule = "full grid: seeds {0..63 (quick) / 0..255 (thorough), 2^32-1, 2^64-1} x error rate {0, 0.3, 1} x latency rate {0, 0.5, 1} x latency range ms {(0,0),(5,5),(5,20),(20,5),(1200,1800),(2000,2000),(500,2500),(61000,62000),(3600000,1)} x 24 sequential requests; six equally seeded instances (built with the builder calls in five different orders; one of them serving every request through a fresh clone) run side by side under virtual time and must make identical decisions and inject identical latencies. distinct = distinct (configuration, decision vector) pairs".into();
     let mut seeds: Vec<u64> = (0..tier.pick(64u64, 256)).collect();
     seeds.push(u32::MAX as u64);
     seeds.push(u64::MAX);
@@ -139,22 +155,24 @@ fn main() {
                     let b = run_instance(Some(seed), er, lr, min, max, 1);
                     let c = run_instance(Some(seed), er, lr, min, max, 2);
                     let d = run_instance_via(Some(seed), er, lr, min, max, 0, true);
-                    rep.evaluations += 4 * N_REQ as u64;
-                    let (a, b, c, d) = match (a, b, c, d) {
-                        (Ok(a), Ok(b), Ok(c), Ok(d)) => (a, b, c, d),
-                        (Err(e), _, _, _) | (_, Err(e), _, _) | (_, _, Err(e), _) | (_, _, _, Err(e)) => {
+                    let e3 = run_instance(Some(seed), er, lr, min, max, 3);
+                    let e4 = run_instance(Some(seed), er, lr, min, max, 4);
+                    rep.evaluations += 6 * N_REQ as u64;
+                    let (a, b, c, d, e3, e4) = match (a, b, c, d, e3, e4) {
+                        (Ok(a), Ok(b), Ok(c), Ok(d), Ok(e3), Ok(e4)) => (a, b, c, d, e3, e4),
+                        (Err(e), _, _, _, _, _) | (_, Err(e), _, _, _, _) | (_, _, Err(e), _, _, _) | (_, _, _, Err(e), _, _) | (_, _, _, _, Err(e), _) | (_, _, _, _, _, Err(e)) => {
                             viol(&mut rep, "not_transparent", cfg.clone(), e);
                             continue;
                         }
                     };
-                    for (name, other) in [("settings before error_rate", &b), ("settings between error_rate and error_fn", &c), ("same order, every request through a fresh clone of the service", &d)] {
+                    for (name, other) in [("settings before error_rate", &b), ("settings between error_rate and error_fn", &c), ("same order, every request through a fresh clone of the service", &d), ("error_fn before error_rate, settings last", &e3), ("settings first, then error_fn before error_rate", &e4)] {
                         if &a != other {
                             let i = a.iter().zip(other.iter()).position(|(x, y)| x != y).unwrap();
                             viol(&mut rep, "not_reproducible", cfg.clone(), format!("two instances with seed {seed} (builder order: settings last / {name}) differ at request {i}: {:?} vs {:?}", a[i], other[i]));
                         }
                     }
                     let (lo, hi) = (min.min(max), min.max(max));
-                    for (i, o) in a.iter().enumerate().chain(b.iter().enumerate()).chain(c.iter().enumerate()) {
+                    for (i, o) in a.iter().enumerate().chain(b.iter().enumerate()).chain(c.iter().enumerate()).chain(e3.iter().enumerate()).chain(e4.iter().enumerate()) {
                         if o.result == "injected_error" && o.reached_inner {
                             viol(&mut rep, "injected_error_reached_inner", cfg.clone(), format!("request {i} got the injected error but the inner service was called"));
                         }
